@@ -2,16 +2,18 @@
 #ifndef SIM_EXEC2_H
 #define SIM_EXEC2_H
 #include "sim_exec.h"
+#include "sim_fresh.h"
 
 static const char* op_owner(int op) {
   switch (op) {
-    case OP_INIT: case OP_SELECT: case OP_LIST: case OP_GET_NAME: case OP_AUDIT: case OP_PASS_FUNC: return "C12";
+    case OP_INIT: return "C12+C14";
+    case OP_SELECT: case OP_LIST: case OP_GET_NAME: case OP_AUDIT: case OP_PASS_FUNC: return "C12";
     case OP_GET_DIM: case OP_PRINTID: case OP_SWEEP: return "C14";
-    case OP_EVAL: case OP_EVAL_SUP: case OP_TWIN: return "C10";
+    case OP_EVAL: case OP_EVAL_SUP: case OP_TWIN: case OP_FRESH: return "C10";
     case OP_EVAL_UNSUP: case OP_WALK_UNSUP: return "C15";
     case OP_MIRROR: return "C17";
     case OP_SELECT_UNKNOWN: case OP_PREINIT_CALL: return "C16";
-    case OP_INIT_UNKNOWN: return "C13";
+    case OP_INIT_UNKNOWN: return "C13+C16";
     case OP_EXIT_HERE: return "C19";
     default: return "C11";
   }
@@ -256,7 +258,7 @@ void Exec::do_mirror(const Step& st, const Client& cl) {
     case 3: {  // set_array through C, get_vec through C++
       if (vn.empty()) break;
       const std::string n = vn[(size_t)st.a % vn.size()];
-      int len = st.len < 0 ? 0 : st.len % 41;
+      int len = st.len < 0 ? (int)inst.v[n].size() % 41 : st.len % 41;
       std::vector<double> arr((size_t)len + 1, 0.0);
       Rng r(st.u);
       for (int i = 0; i < len; ++i) arr[(size_t)i] = 0.05 + r.u01() * 9.0;
@@ -290,7 +292,7 @@ void Exec::do_mirror(const Step& st, const Client& cl) {
       if (unexpected(co, "C17", "get_array")) return;
       orc_eval("C17");
       if (crc != xrc) viol("C17", "C17.get_array.status", "masa_get_array", "C status " + std::to_string(crc) + " vs C++ status " + std::to_string(xrc) + (unknown ? " (unknown name)" : ""));
-      if (!unknown) {
+      {
         bool same = cn == (int)got.size();
         for (int i = 0; same && i < cn && i < 64; ++i) same = bits_of(buf[i]) == bits_of(got[(size_t)i]);
         if (!same) viol("C17", "C17.get_array", "masa_get_array", "C array (length " + std::to_string(cn) + ") differs from the C++ vector (length " + std::to_string(got.size()) + ")");
@@ -507,8 +509,11 @@ void Exec::do_step(const Step& st, const Client& cl, int depth) {
       std::vector<std::pair<std::string, S>> writes;
       bool admissible = st.b == 0;
       if (sol.name == "sod_1d" && admissible) {
+        // any Gamma > 1 with 0 < mu < 1 keeps the root of sod_1d's pressure function bracketed, so mu need not be
+        // the value derived from Gamma (an evaluator that re-derives it is then visible)
+        static const double mufac[4] = {1.0, 1.0, 0.9, 1.1};
         S g = S(g_sod_gamma[(size_t)st.c % 6]);
-        S mu = ((g - S(1.e0)) / (g + S(1.e0)));
+        S mu = ((g - S(1.e0)) / (g + S(1.e0))) * S(mufac[(size_t)st.a % 4]);
         writes.push_back(std::make_pair(std::string("Gamma"), g));
         writes.push_back(std::make_pair(std::string("mu"), mu));
       } else if (sol.name == "sod_1d" || sol.fixture) {
@@ -764,6 +769,8 @@ void Exec::do_step(const Step& st, const Client& cl, int depth) {
     case OP_SET_VEC_UNKNOWN: {
       const bool unk = st.op == OP_SET_VEC_UNKNOWN;
       int len = st.len < 0 ? 0 : st.len % 41;
+      if (cur && !vn.empty() && st.len == -1) len = (int)cur->v[vn[(size_t)st.a % vn.size()]].size() % 41;            // same length, other values
+      if (cur && !vn.empty() && st.len == -2) len = (int)cur->v[vn[((size_t)st.a + vn.size() - 1) % vn.size()]].size() % 41;  // length of the neighbouring vector
       std::vector<S> vals((size_t)len);
       Rng r(st.u);
       for (int i = 0; i < len; ++i) vals[(size_t)i] = S(0.05 + r.u01() * 9.0) + (prec == 1 ? S(1) / S(3) * S(1e-3) : S(0));
@@ -851,7 +858,7 @@ void Exec::do_step(const Step& st, const Client& cl, int depth) {
       if (C) {
         orc_eval("C17");
         if (crc != rc) viol("C17", "C17.get_array.status", "masa_get_array", "C status " + std::to_string(crc) + " vs C++ status " + std::to_string(rc) + (unk ? " (unknown name)" : ""));
-        if (!unk) {
+        {
           bool same = cn == (int)got.size();
           for (int i = 0; same && i < cn && i < 64; ++i) same = bits_of(buf[i]) == bits_of((double)got[(size_t)i]);
           if (!same) viol("C17", "C17.get_array", "masa_get_array", "C array (length " + std::to_string(cn) + ") differs from the C++ vector (length " + std::to_string(got.size()) + ")");
@@ -983,6 +990,53 @@ void Exec::do_step(const Step& st, const Client& cl, int depth) {
         es.c = ev % 3;
         do_eval<S>(es, cl, ev, 1);
         if (stop) return;
+      }
+      return;
+    }
+    case OP_FRESH: {
+      if (!cur || g_zyg_fd < 0 || g_sols[cur->sol].fixture || !cur->evaluable() || cur->recent.empty()) {
+        ++skipped;
+        return;
+      }
+      const Sol& sol = g_sols[cur->sol];
+      const std::string h = R.cur;
+      std::vector<Inst::Recent> todo(cur->recent.end() - (long)std::min<size_t>(3, cur->recent.size()), cur->recent.end());
+      Client ccl = cl;
+      ccl.lang = 0;
+      for (const Inst::Recent& rc : todo) {
+        Step es;
+        es.op = OP_EVAL;
+        es.client = st.client;
+        es.a = rc.ev;
+        es.k = rc.k;
+        es.c = rc.cbkind;
+        eval_abs = rc.x;
+        do_eval<S>(es, ccl, rc.ev, 1);  // the value this session gives NOW for these parameters
+        eval_abs = nullptr;
+        if (stop) return;
+        Inst& inst = R.m[h];
+        EvalArgs<S> a;
+        for (int i = 0; i < 4; ++i) a.x[i] = (S)rc.x[i];
+        a.k = rc.k;
+        auto it = purity.find(purity_key<S>(prec, inst, rc.ev, a, rc.cbkind));
+        if (it == purity.end()) continue;
+        FreshReq rq;
+        rq.prec = prec;
+        rq.ev = rc.ev;
+        rq.k = rc.k;
+        rq.cbkind = rc.cbkind;
+        rq.sol = sol.name;
+        for (int i = 0; i < 4; ++i) rq.x[i] = rc.x[i];
+        for (auto& kv : inst.p) rq.p.push_back(kv);
+        for (auto& kv : inst.v) rq.v.push_back(kv);
+        Bits fb;
+        if (!fresh_request(rq, fb)) continue;  // no reference: inconclusive
+        fire("F7_fresh_process_restart");
+        orc_eval("C10");
+        log.u64(fb.lo);
+        if (fb != it->second.first)
+          viol("C10", "C10.fresh", sol.name + ":" + g_evals[rc.ev].shortname + "/" + g_evals[rc.ev].sig,
+               "this session evaluates to [" + fmt_bits(it->second.first) + "] but a fresh process given the same parameters and arguments evaluates to [" + fmt_bits(fb) + "]");
       }
       return;
     }
